@@ -6,7 +6,7 @@ From Coq Require Import List NArith Bool Arith.
 From Coq Require String.
 From Coq.Strings Require Import Byte.
 Import ListNotations.
-From OV Require Import Base.Bytes Base.Utf8 Model.Edi Proofs.Edi Proofs.EdiRT.
+From OV Require Import Base.Bytes Base.Utf8 Model.Edi Proofs.Edi Proofs.EdiUnits Proofs.EdiRT Proofs.EdiCover.
 
 (* ByteIndexWithEsc, for EVERY byte string s, every non-empty delim and every esc (empty or not):
    the result is the first position at which delim occurs without being preceded by an odd run of
@@ -34,11 +34,22 @@ Proof.
   exact (unescape_length b esc o Ho).
 Qed.
 
-(* unescape (escape d) = d for ALL byte strings d: hs are the (ASCII) first bytes of the
-   delimiters and of the release character; the release character may be absent (esc = []). *)
-Theorem unescape_escape : forall hs esc d, Forall ascii_byte hs -> rel_ok hs esc ->
-  unescape (escape hs esc d) esc = Ok d.
-Proof. exact unescape_escape. Qed.
+(* unescape (escape d) = d for ALL byte strings d (valid UTF-8 or not), for the rune-wise encoder
+   and every configuration with cfg_ok: in particular the truncating branch of ByteUnescape is
+   never reached on encoder output. *)
+Theorem unescape_escape : forall c, cfg_ok c -> forall d,
+  unescape (escape (heads (specials c)) (optb (c_rel c)) d) (optb (c_rel c)) = Ok d.
+Proof. exact unescape_E. Qed.
+
+(* the byte-wise encoder: hs are ASCII first bytes of the delimiters and of the release
+   character; the release character may be absent (esc = []) *)
+Theorem unescape_escape_ascii : forall hs esc d, Forall ascii_byte hs -> rel_ok hs esc ->
+  unescape (escape_b hs esc d) esc = Ok d.
+Proof. exact unescape_escape_b. Qed.
+
+(* with ASCII first bytes the two encoders are the same function *)
+Theorem escape_ascii : forall hs rel d, Forall ascii_byte hs -> escape hs rel d = escape_b hs rel d.
+Proof. exact escape_ascii. Qed.
 
 (* runeCountAndHasOnlyCRLF: a token is skipped exactly when all its bytes are CR or LF *)
 Theorem crlf_only_token : forall t, only_crlf t = forallb is_crlf t.
@@ -49,13 +60,15 @@ Proof.
 Qed.
 
 (* edi_roundtrip.  For every delimiter configuration with cfg_ok (delimiters in use and release
-   character: non-empty, first bytes ASCII and pairwise distinct, no first byte at a later
-   position of any of them; with LF as segment delimiter the release character does not end with
-   CR) and all logical segments with segx_ok (shape: >= 1 element, >= 1 repetition, >= 1
+   character: non-empty byte strings -- single- or multi-byte, ASCII or not -- whose first rune
+   utf8.DecodeRune decodes and is not U+FFFD, e.g. any valid UTF-8 string; first bytes pairwise
+   distinct; no first byte at a later position of any of them; with LF as segment delimiter the
+   release character does not end with CR) and all logical segments with segx_ok (shape: >= 1 element, >= 1 repetition, >= 1
    component, exactly one where the delimiter is absent; data arbitrary bytes when there is a
    release character, otherwise free of delimiter first bytes; name non-empty; the CR/LF rules:
-   a CR before the delimiter / blank lines only where the rules eat them, the encoded segment
-   not ending in CR when LF delimits, a name with a non-CR/LF byte when the delimiter is CR/LF
+   a CR before the delimiter / blank lines only where the rules eat them, when LF delimits, the
+   last value not ending in CR and, if it is empty, the delimiter before it not ending in CR
+   (no_cr_end: a condition on the logical values; edi_roundtrip_enc states it on the encoding), a name with a non-CR/LF byte when the delimiter is CR/LF
    only), and for every input that -- after ignore_crlf stripping, if configured -- is the
    encoding of those segments: NonValidatingReader delivers exactly the logical
    (ElemIndex, CompIndex, escaped data) of every segment, in order, then EOF; and unescaping
@@ -86,6 +99,104 @@ Theorem edi_full_roundtrip : forall c, cfg_ok c -> forall segs inp sname decls,
   full_read_all c sname decls inp = Ok (exp_full decls (map ls_seg segs)).
 Proof. exact full_roundtrip. Qed.
 
+(* The same with the CR condition stated on the encoding (has_suffix (enc_seg c s) [CR] = false
+   instead of no_cr_end): the more general form the two theorems above are derived from. *)
+Theorem segx_ok_enc_of : forall c, cfg_ok c -> forall x, segx_ok c x -> segx_ok_enc c x.
+Proof. exact segx_ok_enc_of. Qed.
+
+Theorem edi_roundtrip_enc : forall c, cfg_ok c -> forall segs inp,
+  Forall (segx_ok_enc c) segs ->
+  (if c_ignore_crlf c then strip_crlf inp else inp) = edi_encode c segs ->
+  nv_read_all c inp = Ok (map (fun x => exp_seg c (ls_seg x)) segs).
+Proof. exact roundtrip_enc. Qed.
+
+Theorem edi_full_roundtrip_enc : forall c, cfg_ok c -> forall segs inp sname decls,
+  Forall (segx_ok_enc c) segs ->
+  (forall x, In x segs ->
+     escape (heads (specials c)) (optb (c_rel c)) (seg_name (ls_seg x)) = sname) ->
+  (if c_ignore_crlf c then strip_crlf inp else inp) = edi_encode c segs ->
+  full_read_all c sname decls inp = Ok (exp_full decls (map ls_seg segs)).
+Proof. exact full_roundtrip_enc. Qed.
+
+(* ---- nothing is lost (no cfg_ok: every configuration with non-empty segment and element
+   delimiters, every input) ------------------------------------------------------------------------ *)
+
+(* ignore_crlf drops CR and LF bytes and nothing else, in place *)
+Theorem strip_crlf_spec : forall inp, strip_crlf inp = filter (fun b => negb (is_crlf b)) inp.
+Proof. exact strip_crlf_spec. Qed.
+
+(* edi_tokens_cover.  NonValidatingReader never panics or loops; the (stripped) input is the
+   concatenation of the tokens it scans plus a rest that holds no unescaped segment delimiter;
+   every token ends with its first unescaped segment delimiter (is_token); the tokens made of CR/LF
+   only are skipped (crlf_only_token) and every other token p ++ seg yields one result: its pieces
+   n (elements x repetitions x components), joined again with the delimiters, are p -- or p without
+   the one CR that the LF rule drops -- and the RawSegElems are exactly those pieces, numbered
+   (tok_accounted).  So every input byte is in a RawSegElem, is a delimiter byte, is a CR/LF
+   dropped as the rules say, or belongs to the unterminated rest. *)
+Theorem edi_tokens_cover : forall c inp, c_seg c <> [] -> c_elem c <> [] ->
+  let inp' := if c_ignore_crlf c then strip_crlf inp else inp in
+  exists toks rest results,
+    nv_read_all c inp = Ok results /\
+    inp' = concat toks ++ rest /\
+    Forall (is_token (c_seg c) (optb (c_rel c))) toks /\
+    (forall j, ~ unesc_occ (optb (c_rel c)) rest (c_seg c) j) /\
+    Forall2 (tok_accounted c) (filter (fun t => negb (only_crlf t)) toks) results.
+Proof. exact nv_read_all_cover. Qed.
+
+(* edi_tokens_complete.  The full statement -- "the rest is always empty: every byte of the input
+   ends up in some token" -- is false of the code (edi_trailing_refuted below; DESIGN section 6
+   F8, scanner flag EofNotAsDelim extracted into Gen/EdiConsts.v).  Under the guard "the input is
+   a sequence of terminated segments" (inp' = concat toks with every member a token) it holds:
+   the scanner returns exactly those tokens and every one is accounted for. *)
+Theorem edi_tokens_complete : forall c inp toks, c_seg c <> [] -> c_elem c <> [] ->
+  let inp' := if c_ignore_crlf c then strip_crlf inp else inp in
+  inp' = concat toks -> Forall (is_token (c_seg c) (optb (c_rel c))) toks ->
+  scan_tokens (S (length inp')) inp' (c_seg c) (optb (c_rel c)) = Ok toks /\
+  exists results, nv_read_all c inp = Ok results /\
+    Forall2 (tok_accounted c) (filter (fun t => negb (only_crlf t)) toks) results.
+Proof.
+  intros c inp toks Hs He inp' Hin Ht. split.
+  - rewrite Hin. apply scan_tokens_terminated; [exact Hs|exact Ht|apply Nat.lt_succ_diag_r].
+  - exact (nv_read_all_complete c inp toks Hs He Hin Ht).
+Qed.
+
+(* edi_trailing_refuted (F8): A*1~A*2~Z*lost -- the two terminated segments are delivered, the
+   bytes after the last terminator are in no token and in no result, and EOF is clean. *)
+Theorem edi_trailing_refuted :
+  exists c inp, c_seg c <> [] /\ c_elem c <> [] /\ c_ignore_crlf c = false /\
+    exists toks results,
+      scan_tokens (S (length inp)) inp (c_seg c) (optb (c_rel c)) = Ok toks /\
+      concat toks <> inp /\
+      nv_read_all c inp = Ok results /\ length results = 2.
+Proof.
+  exists (mkCfg [x7e] [x2a] None None None false).
+  exists [x41; x2a; x31; x7e; x41; x2a; x32; x7e; x5a; x2a; x6c; x6f; x73; x74].
+  split; [discriminate|]. split; [discriminate|]. split; [reflexivity|].
+  eexists. eexists. split; [vm_compute; reflexivity|]. split; [discriminate|].
+  split; [vm_compute; reflexivity|reflexivity].
+Qed.
+
+(* The first version of these theorems (first bytes ASCII, byte-wise encoder) as corollaries. *)
+Theorem cfg_ok_ascii_ok : forall c, cfg_ok_ascii c -> cfg_ok c.
+Proof. exact cfg_ok_ascii_ok. Qed.
+
+Corollary edi_roundtrip_ascii : forall c, cfg_ok_ascii c -> forall segs inp,
+  Forall (segx_ok c) segs ->
+  (if c_ignore_crlf c then strip_crlf inp else inp) = edi_encode c segs ->
+  nv_read_all c inp = Ok (map (fun x => exp_seg c (ls_seg x)) segs) /\
+  forall d, escape (heads (specials c)) (optb (c_rel c)) d = escape_b (heads (specials c)) (optb (c_rel c)) d /\
+            unescape (escape_b (heads (specials c)) (optb (c_rel c)) d) (optb (c_rel c)) = Ok d.
+Proof.
+  intros c Hc segs inp Hs Hin. pose proof (cfg_ok_ascii_ok c Hc) as Hc'.
+  split; [exact (roundtrip c Hc' segs inp Hs Hin)|].
+  intro d. destruct Hc as (_ & _ & _ & Ha & _).
+  rewrite <- (escape_ascii _ _ d Ha). split; [reflexivity|exact (unescape_E c Hc' d)].
+Qed.
+
+Corollary edi_elem_nodes_ascii : forall c, cfg_ok_ascii c -> forall s decls k,
+  seg_to_node (optb (c_rel c)) k decls (exp_elems c 0 s) = Ok (exp_nodes k decls s).
+Proof. intros c Hc. exact (elem_nodes c (cfg_ok_ascii_ok c Hc)). Qed.
+
 (* ---- non-vacuity and the documented corner cases -------------------------------------------- *)
 Local Open Scope string_scope.
 Import String.StringSyntax.
@@ -98,7 +209,7 @@ Proof. split; vm_compute; reflexivity. Qed.
 
 Example unescape_escape_ex :
   rel_ok (hx "7e2a3f") (hx "3f") /\ Forall ascii_byte (hx "7e2a3f") /\
-  escape (hx "7e2a3f") (hx "3f") (hx "613f2a7e") = hx "613f3f3f2a3f7e".
+  escape_b (hx "7e2a3f") (hx "3f") (hx "613f2a7e") = hx "613f3f3f2a3f7e".
 Proof.
   split; [split; [reflexivity|intros b []]|]. split; [|reflexivity].
   repeat constructor.
@@ -126,7 +237,7 @@ Ltac solve_cfg_ok :=
          | |- NoDup _ => constructor
          | |- ~ _ => cbn; intuition discriminate
          | |- Forall _ _ => constructor
-         | |- ascii_byte _ => reflexivity
+         | |- first_rune_ok _ => unfold first_rune_ok; vm_compute; discriminate
          | |- tail_clean _ _ => intros b Hb; cbn in Hb; intuition (subst; reflexivity)
          | |- _ -> _ => intro
          end.
@@ -140,20 +251,53 @@ Proof.
   intros [u Hu]. destruct u as [|a [|b u]]; cbn in Hu; discriminate.
 Qed.
 
-(* segment  A * "a?b*c" : "~" ^ "r2" * ""   -- values containing release, element, component and
-   segment delimiter characters, a repetition, a trailing empty element *)
-Definition seg_ex : lsegx :=
-  mkLS [] [ [[hx "41"]]; [[hx "613f622a63"; hx "7e"]; [hx "7232"]]; [[ [] ]] ] false.
+Ltac solve_no_cr :=
+  unfold no_cr_end; split;
+  [ let Hc := fresh in intro Hc; apply has_suffix_cr in Hc; vm_compute in Hc; discriminate
+  | let Hn := fresh in intro Hn; vm_compute in Hn; try discriminate;
+    let Hc := fresh in intro Hc; apply has_suffix_cr in Hc; vm_compute in Hc; discriminate ].
 
 Ltac solve_segx_ok :=
   unfold segx_ok, elem_ok, rep_ok, data_ok; cbn;
   repeat match goal with
+         | |- no_cr_end _ _ => solve_no_cr
          | |- _ /\ _ => split
          | |- _ <> _ => discriminate
          | |- Forall _ _ => constructor
          | |- _ \/ _ => left; discriminate
          | |- _ -> _ => intro
          end.
+
+(* Non-ASCII delimiters: segment "\n", element U+00A6 (2 bytes), component U+20AC (3 bytes),
+   release U+1F600 (4 bytes); the value  a U+20AC U+2192 0xE2 b U+1F600  holds the component
+   delimiter, a rune sharing its first byte with it (escaped too), that first byte alone
+   (undecodable: left as it is) and the release character. *)
+Definition c_utf : cfg := mkCfg (hx "0a") (hx "c2a6") (Some (hx "e282ac")) None (Some (hx "f09f9880")) false.
+
+Example cfg_ok_utf : cfg_ok c_utf.
+Proof.
+  solve_cfg_ok. all: try discriminate.
+  intros [u Hu]. destruct u as [|a0 [|a1 [|a2 [|a3 [|a4 u]]]]]; cbn in Hu; discriminate.
+Qed.
+
+Example edi_roundtrip_utf :
+  let s := mkLS [] [ [[hx "41"]]; [[hx "61e282ace28692e262f09f9880"; hx "c2a6"]] ] false in
+  segx_ok c_utf s /\
+  edi_encode c_utf [s] = hx "41c2a661f09f9880e282acf09f9880e28692e262f09f9880f09f9880e282acf09f9880c2a60a" /\
+  nv_read_all c_utf (edi_encode c_utf [s]) =
+    Ok [SegOk (hx "41") [mkRE 0 1 (hx "41"); mkRE 1 1 (hx "61f09f9880e282acf09f9880e28692e262f09f9880f09f9880"); mkRE 1 2 (hx "f09f9880c2a6")]] /\
+  unescape (hx "61f09f9880e282acf09f9880e28692e262f09f9880f09f9880") (hx "f09f9880") = Ok (hx "61e282ace28692e262f09f9880").
+Proof.
+  split.
+  - solve_segx_ok. all: try discriminate; try reflexivity; try contradiction.
+    exists x41. split; [left; reflexivity|reflexivity].
+  - repeat split; vm_compute; reflexivity.
+Qed.
+
+(* segment  A * "a?b*c" : "~" ^ "r2" * ""   -- values containing release, element, component and
+   segment delimiter characters, a repetition, a trailing empty element *)
+Definition seg_ex : lsegx :=
+  mkLS [] [ [[hx "41"]]; [[hx "613f622a63"; hx "7e"]; [hx "7232"]]; [[ [] ]] ] false.
 
 Example segx_ok_ex : segx_ok c_ex seg_ex.
 Proof. solve_segx_ok. all: try discriminate; try reflexivity; try contradiction. Qed.
@@ -166,7 +310,8 @@ Example edi_roundtrip_ex :
 Proof. split; vm_compute; reflexivity. Qed.
 
 (* CRLF input with LF delimiter, preceded by a blank "\r\n" line and a blank "\n" line *)
-Definition seg_lf : lsegx := mkLS [true; false] [ [[hx "41"]]; [[hx "0d0a78"]] ] true.
+(* ... and an empty last element: the element delimiter "*" before it does not end with CR *)
+Definition seg_lf : lsegx := mkLS [true; false] [ [[hx "41"]]; [[hx "0d0a78"]]; [[ [] ]] ] true.
 
 Example segx_ok_lf : segx_ok c_lf seg_lf.
 Proof.
@@ -175,9 +320,9 @@ Proof.
 Qed.
 
 Example edi_roundtrip_lf :
-  edi_encode c_lf [seg_lf] = hx "0d0a0a412a0d3f0a780d0a" /\
+  edi_encode c_lf [seg_lf] = hx "0d0a0a412a0d3f0a782a0d0a" /\
   nv_read_all c_lf (edi_encode c_lf [seg_lf]) =
-    Ok [SegOk (hx "41") [mkRE 0 1 (hx "41"); mkRE 1 1 (hx "0d3f0a78")]].
+    Ok [SegOk (hx "41") [mkRE 0 1 (hx "41"); mkRE 1 1 (hx "0d3f0a78"); mkRE 2 1 []]].
 Proof. split; vm_compute; reflexivity. Qed.
 
 (* declarations: index 1 twice (same raw element), component 2, a missing element with default,
@@ -201,6 +346,18 @@ Example edi_dup_decl_old_refuted :
     seg_to_node_old (hx "3f") 0 decls raw = Ok (Some [(0, hx "613f622a63"); (1, hx "61622a632a63")]) /\
     seg_to_node (hx "3f") 0 decls raw = Ok (Some [(0, hx "613f622a63"); (1, hx "613f622a63")]).
 Proof. eexists. split; [vm_compute; reflexivity|]. split; vm_compute; reflexivity. Qed.
+
+(* the guard of edi_tokens_complete is satisfiable: the input A*?~1~B~ is the two tokens A*?~1~
+   (an escaped terminator inside) and B~ *)
+Example edi_tokens_complete_ex :
+  let seg := hx "7e" in let esc := hx "3f" in
+  Forall (is_token seg esc) [hx "412a3f7e317e"; hx "427e"] /\
+  nv_read_all (mkCfg (hx "7e") (hx "2a") None None (Some (hx "3f")) false) (hx "412a3f7e317e427e") =
+    Ok [SegOk (hx "41") [mkRE 0 1 (hx "41"); mkRE 1 1 (hx "3f7e31")]; SegOk (hx "42") [mkRE 0 1 (hx "42")]].
+Proof.
+  split; [|vm_compute; reflexivity].
+  apply (scan_is_token (hx "7e") (hx "3f") (hx "412a3f7e317e427e")); [discriminate|vm_compute; reflexivity].
+Qed.
 
 (* the side condition is not idle: an element delimiter "*?" whose tail contains the release
    character "?" makes the segment delimiter after an empty last element look escaped, and the
